@@ -11,19 +11,32 @@ def flow_cfg(n_htlcs=1, store='free_absent', amounts=None, **kw):
     for i, a in enumerate(amounts):
         specs.append(HtlcSpec(i, invoice=0, hash=H, amount=a, forward='amount', total=1006000, cltv_expiry=3000 + i, cltv_rel=1500))
     cfg = dict(htlcs=specs, invoices=[inv], store_init=store, max_parts=1, pay_outcomes=('complete', 'pending', 'failed', 'failed_warning', 'error:210'),
-               pending_parts=1, policy=(1000, 5000, 1008), cltv_delta=34, height=100, max_total_parts=2, deliver_in_order=True)
+               pending_parts=1, policy=(1000, 5000, 1008), cltv_delta=34, height=100, max_total_parts=2, deliver_in_order=True,
+               strict_por=True, rng_free=False)   # a single HTLC never makes two select! branches ready at once: the start index is irrelevant
     cfg.update(kw)
     return cfg, []
 
-def standard_configs(tier, crash=True, faults=0, write_faults=0, fault_methods=()):
+def standard_configs(tier, crash=True, faults=0, write_faults=0, fault_methods=(), two_sets=('paid', 'failed', 'error:210')):
     """[(name, cfg, pc, kwargs)]"""
     out = []
     for store in ('free_absent', 'pending', 'succeeded'):
         cfg, pc = flow_cfg(1, store)
         out.append(('1 htlc, stored=%s' % store, cfg, pc, {}))
+    # restart with a replayed HTLC that now trips a policy check (blocks were mined / policy changed): still held
+    cfg, pc = flow_cfg(1, 'pending')
+    cfg['htlcs'][0].cltv_rel = 10
+    out.append(('1 rejecting htlc, stored=pending', cfg, pc, {}))
+    cfg, pc = flow_cfg(1, 'pending')
+    cfg['htlcs'][0].total = 1000
+    out.append(('1 underdeclared htlc, stored=pending', cfg, pc, {}))
     # a second set for the same invoice arriving at any point of the first lifecycle (also during its bookkeeping tail)
-    cfg, pc = flow_cfg(2, 'free_absent', amounts=[1006000, 1006000], pay_outcomes=('complete', 'failed'))
-    out.append(('2 consecutive sets', cfg, pc, {}))
+    cfg, pc = flow_cfg(2, 'free_absent', amounts=[1006000, 1006000], pay_outcomes=('complete',), parts_can_fail=False, deliver_after_response=True)
+    if 'paid' in two_sets:
+        out.append(('2 consecutive sets, first one paid', cfg, pc, {}))
+    for oc in [x for x in ('failed', 'error:210') if x in two_sets or tier == 'thorough']:
+        cfg, pc = flow_cfg(2, 'free_absent', amounts=[1006000, 1006000], pay_outcomes=(oc,), payee_releases=False, deliver_after_response=True,
+                           timers=False, eager_tasks=True)
+        out.append(('2 consecutive sets, first pay ends %s' % oc, cfg, pc, {}))
     if crash:
         cfg, pc = flow_cfg(1, 'free_absent', crash=1, pay_outcomes=('complete', 'failed'))
         out.append(('1 htlc, 1 crash', cfg, pc, {}))
